@@ -34,6 +34,17 @@ def impl_roundtrip(case):
     path = os.path.join(_tmp(), 'f%d.syx' % os.getpid())
     ms = build(desc)
     before = [vars(m).copy() for m in ms]
+    if len(desc) % 3 == 1:
+        # unrelated parsing that went wrong earlier in the process (a complete sysex, then an item that is no byte; a
+        # tokenizer nobody drained) must leave no trace in what a SYX file reads back
+        mido.Parser([0xf0, 0x44, 0xf7])
+        if len(desc) == 1:
+            mido.tokenizer.Tokenizer([0xf0, 0x33, 0xf7, 0xf8])
+        else:
+            try:
+                mido.parse_all([0xf0, 0x11, 0x22, 0xf7, 0x90, 300])
+            except (ValueError, TypeError):
+                pass
     try:
         mido.write_syx_file(path, ms, plaintext=plaintext)
         with open(path, 'rb') as f:
@@ -99,7 +110,7 @@ def gen(ck):
     rng = ck.rng
     n = 1500 if ck.tier == 'quick' else 40000
     rts = [([], False), ([], True)]
-    lens = [0, 1, 2, 127, 128, 1000, 5000]
+    lens = [0, 1, 2, 127, 128, 1000, 5000, 5461, 6000]
     for i in range(n):
         desc = []
         for _ in range(rng.randint(0, 6)):
